@@ -72,6 +72,10 @@ theorem Kernel.batch_slice_bw_pinned_guard_unsound :
     have := (hb 0 (by decide)).2
     revert this; decide
 
+example : Front.sliceBw ⟨[2], 1, 2⟩ ⟨[4], 1, 4⟩ 0 2 = .ok (.kernel (sliceBwMoves 1 2 4 1 1 0 0 2)) := by rfl
+example : Front.sliceBw ⟨[2], 1, 2⟩ ⟨[4], 1, 4⟩ 0 4294967295 = .error .error := by rfl
+example : Front.sliceBw ⟨[2], 1, 2⟩ ⟨[4], 1, 4⟩ 0 3 = .error .error := by rfl
+
 /-! ### pick -/
 
 theorem Kernel.pick_fw_in_bounds {x ys : Shape} {ids : List Nat} {dim : Nat} {m : Moves} (hx : WF x)
@@ -105,6 +109,9 @@ theorem Kernel.pick_bw_in_bounds {gy gx : Shape} {ids : List Nat} {dim : Nat} {m
     intro b hb'
     rw [hb] at hb'
     exact (pick_id_ok hpos hcomp hids hx.bpos hb').1
+
+example : Front.pickFw ⟨[3, 3], 1, 9⟩ [1, 2] 1 = .ok (⟨[3], 2, 3⟩, pickMoves 2 0 1 3 9 1 [1, 2]) := by rfl
+example : Front.pickBw ⟨[3], 2, 3⟩ ⟨[3, 3], 1, 9⟩ [1, 2] 1 = .ok (pickMoves 2 0 1 3 9 1 [1, 2]).swap := by rfl
 
 /-! ### flip -/
 
@@ -161,6 +168,10 @@ theorem Kernel.broadcast_fw_writes_all {x ys : Shape} {dim size : Nat} {m : Move
   have ⟨_, _, hs, _, _, _, hm, _, hys⟩ := broadcastFw_plan hx h
   rw [hm, hys]
   exact broadcast_writes hs (lo_pos hx dim)
+
+example : Front.reduceFw ⟨[3, 2], 2, 6⟩ 0 = .ok (⟨[1, 2], 2, 2⟩, axisReduce 4 3 1) := by rfl
+example : Front.reduceFw ⟨[3, 2], 2, 6⟩ 8 = .error .error := by rfl
+example : Front.broadcastFw ⟨[3], 2, 3⟩ 1 2 = .ok (⟨[3, 2], 2, 6⟩, broadcastMoves 6 3 2) := by rfl
 
 /-! ### transpose -/
 
